@@ -106,6 +106,7 @@ type LoopC struct {
 	Back  []Clause
 	Iter  []Clause
 	Exit  []Clause
+	Entry []Clause // asserted when the loop is entered (not an invariant)
 	Bound int
 }
 
@@ -433,7 +434,7 @@ func parseExprString(s string) (e Expr, err error) {
 // ---------- file-level parser ----------
 
 var itemKeywords = map[string]bool{"uf": true, "pure": true, "func": true, "extern": true, "trusted": true, "lemma": true, "ghost": true}
-var clauseKeywords = map[string]bool{"param": true, "assume": true, "show": true, "exit": true, "uses": true, "spec": true, "cut": true, "assert": true, "arith": true, "requires": true, "ensures": true, "modifies": true, "decreases": true, "split": true,
+var clauseKeywords = map[string]bool{"entry": true, "param": true, "assume": true, "show": true, "exit": true, "uses": true, "spec": true, "cut": true, "assert": true, "arith": true, "requires": true, "ensures": true, "modifies": true, "decreases": true, "split": true,
 	"loop": true, "invariant": true, "backedge": true, "iteration": true, "bounded": true, "panics": true}
 
 // readContractLines returns the logical lines (keyword + text) of all //@ lines
@@ -852,7 +853,7 @@ func ParseContracts(paths []string) (*Contracts, error) {
 						} else {
 							cur.Dec = append(cur.Dec, c)
 						}
-					case "invariant", "backedge", "iteration", "exit":
+					case "invariant", "backedge", "iteration", "exit", "entry":
 						if curLoop == nil {
 							return nil, fail(fmt.Errorf("%s outside loop", l.kw))
 						}
@@ -865,6 +866,8 @@ func ParseContracts(paths []string) (*Contracts, error) {
 							curLoop.Iter = append(curLoop.Iter, c)
 						case "exit":
 							curLoop.Exit = append(curLoop.Exit, c)
+						case "entry":
+							curLoop.Entry = append(curLoop.Entry, c)
 						}
 					}
 				}
